@@ -281,7 +281,7 @@ PROPS = {
         "claim": "Capsule path and close-code conversion: a DATA payload is a CLOSE_WEBTRANSPORT_SESSION capsule iff type 0x2843 with a complete length and value (any length, Verus unit capsule; every payload <= 16, Kani); the close is accepted IFF 4 <= len <= 1028 and the reason is UTF-8, carries exactly the big-endian 32-bit code (all 2^32) and the reason bytes; every malformed capsule is H3_DATAGRAM_ERROR; a QUIC application close reaches the application with the same 62-bit code and reason, other causes never become an application close; the leaf future's ImmediateFin/UnexpectedFin distinction (clean finish vs abrupt end) is exact under every Pending pattern.",
         "note": "Not decided: ConnectStream::run (clean FIN => (0, ''), reset => protocol failure), Worker::run, From<quinn::ConnectionError> (async / need a quinn::Connection). UTF-8 validation trusted (core::str::from_utf8) beyond 4-byte reasons.",
         "kani": CAPSULE_KANI + DRIVER_CLOSE + [ASYNC_LEAF_KANI[1]],
-        "verus": [V("capsule", pair=("proto", "p_capsule_with_frame"))],
+        "verus": [V("capsule", pair=("proto", "p_capsule_with_frame")), V("driver_streams")],
         "not_decided": ["ConnectStream::run", "ApplicationClose from quinn::ConnectionError"],
     },
     "C06": {
@@ -315,7 +315,7 @@ PROPS = {
         "claim": "Sans-IO typestate layer: on each of the four stream roles, from an arbitrary first-frame state, the accept/reject verdict and the error code for every frame kind equal the RFC 9114 7.2 / WebTransport-draft rule table - for inputs of ANY length with any number of skipped unknown frames, sync and async (Verus units frame, frame_async) and on bounded symbolic inputs on the real crate (Kani); invalid session ids -> H3_ID_ERROR, oversize -> H3_EXCESSIVE_LOAD, truncation at FIN -> H3_FRAME_ERROR, clean FIN at a frame boundary passed through, unknown uni stream type -> H3_STREAM_CREATION_ERROR; SETTINGS: reserved/duplicate -> H3_SETTINGS_ERROR, truncated -> H3_FRAME_ERROR; the 15 error codes and the setting ids equal their registry values.",
         "note": "Quick tier: well-formed single frames (bounded). Thorough tier: every byte string <= 14 bytes. Not decided: the driver's reaction (RemoteSettingsStream::run, handle_uni_h3_stream, missing/duplicate SETTINGS, closed critical streams) - async over quinn.",
         "kani": STREAM_KANI_QUICK[:5] + STREAM_KANI_BUFFERED + STREAM_KANI_THOROUGH + MISC_KANI[:1] + SETTING_ID_KANI[1:3],
-        "verus": [V("frame", pair=("proto", "p_frame_read_matches_reference_20")), V("settings", pair=("proto", "c_settingid_parse")), V("frame_async"), V("stream_header", pair=("proto", "p_uniremote_upgrade")), V("driver")],
+        "verus": [V("frame", pair=("proto", "p_frame_read_matches_reference_20")), V("settings", pair=("proto", "c_settingid_parse")), V("frame_async"), V("stream_header", pair=("proto", "p_uniremote_upgrade")), V("driver"), V("driver_streams")],
         "not_decided": ["driver-level rules: missing/repeated SETTINGS, duplicated/closed critical streams, what is put on the wire"],
     },
     "C13": {
@@ -324,7 +324,7 @@ PROPS = {
         "note": "Skip loop: Kani shows base case + one step per typestate (thorough tier, bounded); quick tier exercises one leading unknown frame on well-formed input. Unknown frames above the 4096-byte parse limit are refused like known ones (H3_EXCESSIVE_LOAD). Not decided: driver reactions to unknown unidirectional stream types (async).",
         "kani": FRAME_KIND_KANI + [FRAME_READ_20, FRAME_READ_4200] + STREAM_KANI_QUICK[:4] + STREAM_KANI_THOROUGH[:4]
                 + [STREAM_KIND_KANI[0], SETTING_ID_KANI[0], SETTING_ID_KANI[2], CAPSULE_KANI[0], CAPSULE_KANI[1]],
-        "verus": [V("frame", pair=("proto", "p_frame_read_matches_reference_20")), V("settings", pair=("proto", "c_settingid_parse")), V("frame_async"), V("capsule", pair=("proto", "p_capsule_with_frame"))],
+        "verus": [V("frame", pair=("proto", "p_frame_read_matches_reference_20")), V("settings", pair=("proto", "c_settingid_parse")), V("frame_async"), V("capsule", pair=("proto", "p_capsule_with_frame")), V("driver_streams")],
         "not_decided": ["unknown unidirectional stream types in the worker", "ConnectStream capsule loop"],
     },
     "C14": {
